@@ -7,6 +7,7 @@ CONSTANTS
   WordLens <- WordLensQ
   DataLenSeqs <- DataLenSeqsQ
   Versions <- VersionsAll
+  Crudes <- CrudesQ
   Fixups = TRUE
   CorruptAll = FALSE
   Emit = FALSE
